@@ -27,13 +27,15 @@ ASSUME = ['memory model (DESIGN 3.3): all atomics of the protocol are SeqCst exc
 
 def run(ctx):
     ctx.trusted_base, ctx.assumptions = TB, ASSUME
-    if not ctx.harness(['ls_iter', 'p_closeafter', 'p_nested_close', 'sh_probe']):
+    if not ctx.harness(['ls_iter', 'p_closeafter', 'p_nested_close', 'p_nested_iter', 'sh_probe']):
         return
     ctx.translate(COMPONENTS)
     ctx.prove('props/C11.v')
     L.lockstep(ctx, [L.mon_c11], ['c11'])
     async_probe(ctx)
     L.close_sweep(ctx, L.C11_KINDS)
+    # close() while the library's handler is running for a delivery to ANOTHER instance (every instruction boundary of the handler)
+    L.instr_sweep(ctx, L.C11_HANDLER_KINDS, configs=L.HANDLER_CLOSE_CONFIGS, key='instruction_handler_close_sweep')
     ctx.coverage['rule_close_sweep'] = ('close() at every instruction boundary of wait() / forever().next() / one poll_signal with a recording non-blocking callback '
                                         '(fork per boundary): Pending only with an armed wake-up, is_closed sticky, every later call comes back, forever ends, the poller reaches Closed')
     # "once close has been called ..." holds in every history of the instance, also after additions that were refused
@@ -156,6 +158,8 @@ def replay(ctx, path):
         return L.close_replay(ctx, case['case'], L.C11_KINDS)
     if case.get('case', {}).get('adapter'):
         return adapter_replay(ctx, case['case'])
+    if case.get('case', {}).get('instr_sweep'):
+        return L.instr_replay(ctx, case['case'], L.C11_HANDLER_KINDS)
     if case.get('case', {}).get('replay', '').endswith('p_closeafter'):
         print('run:', case['case']['replay'])
         import subprocess
